@@ -18,6 +18,8 @@ func init() {
 			ob0 := c.R.Ob("C08.0", "roles", "the interpreter's money roles are found in the code", 0)
 			r := c.Roles(ob0)
 			obSaveMonotone(c, "C08.1", r)
+			obSign(c, "C08.1b")
+			obEvalReadOnly(c, "C08.5")
 			ob2 := c.R.Ob("C08.2", "ctrl/negative", "negative amounts are rejected by a strict comparison with zero", 2)
 			c.NegativeTestStrict(ob2, "NegativeAmountErr")
 			ob3 := c.R.Ob("C08.3", "effects/W4", "the save runner returns no postings and can reach neither the push functions nor the reconciler", 1)
